@@ -6,7 +6,7 @@
    poison/close and the final peek of each tool are REGENERATED from the source
    (Gen/Src_wrappers.v); capacities, child policy, line lengths, flush points
    and the input are universally quantified. *)
-From PP Require Import Gen.Src_wrappers Wrap.WrapDefs Wrap.WrapProofs.
+From PP Require Import Gen.Src_wrappers Wrap.WrapDefs Wrap.WrapProofs Wrap.WrapPairing Wrap.WrapTerm.
 
 (* generic: with enqueue-before-write no reachable state is stuck unless everything has terminated *)
 Theorem C05_enqueue_before_write_no_stuck :
@@ -35,6 +35,39 @@ Theorem C05_no_spurious_child_error :
     reachable (wstep pr ilen alen) (w_init recs) s -> w_kpc s <> KErr.
 Proof. intros pr ilen alen recs s Hi Ha He Hci Hco Ho. exact (wrapper_no_error pr ilen alen Hi Ha He Hci Hco Ho recs s). Qed.
 Print Assumptions C05_no_spurious_child_error.
+
+(* correctly ordered output under EVERY interleaving, order of enqueue/write, capacity, buffering policy
+   and flush point: the records emitted so far are the first records of the input, in input order, and
+   record i is built from exactly the child's answers to the lines the feeder sent for record i (lines
+   [n_0 + ... + n_(i-1), + n_i) of the child's output) *)
+Theorem C05_output_in_order_from_own_lines :
+  forall pr ilen alen recs s,
+    reachable (wstep pr ilen alen) (w_init recs) s ->
+    rev (w_emitted s) = pairs 0 (firstn (length (w_emitted s)) recs).
+Proof. intros pr ilen alen recs s. exact (emitted_prefix pr ilen alen recs s). Qed.
+Print Assumptions C05_output_in_order_from_own_lines.
+
+(* complete output: once the collector has finished normally it has emitted every record *)
+Theorem C05_output_complete :
+  forall pr ilen alen recs s,
+    reachable (wstep pr ilen alen) (w_init recs) s -> w_kpc s = KDone ->
+    rev (w_emitted s) = pairs 0 recs.
+Proof. intros pr ilen alen recs s. exact (emitted_complete pr ilen alen recs s). Qed.
+Print Assumptions C05_output_complete.
+
+(* termination: with enqueue-before-write every step strictly decreases a natural-number measure, so every
+   run (any interleaving, any fragmentation of the pipe transfers, any flush points) has at most
+   [wmeasure (w_init recs)] steps; with C05_enqueue_before_write_no_stuck every maximal run therefore ends
+   in the terminal state (both threads returned, child exited), with complete ordered output (above) *)
+Theorem C05_terminates :
+  forall pr ilen alen recs ls s,
+    (forall j, 1 <= ilen j) -> (forall j, 1 <= alen j) ->
+    (p_echo pr = true -> forall j, alen j = ilen j) ->
+    1 <= p_cin pr -> 1 <= p_cout pr -> p_order pr = true ->
+    run (wstep pr ilen alen) (w_init recs) ls = Some s ->
+    length ls <= wmeasure pr ilen alen (w_init recs).
+Proof. intros pr ilen alen recs ls s Hi Ha He Hci Hco Ho. exact (wrapper_runs_bounded pr ilen alen Hi Ha He Hci Hco Ho recs ls s). Qed.
+Print Assumptions C05_terminates.
 
 (* the three tools, with the parameters read from their source *)
 Definition tool_params (order poison_first final_peek : bool) (cin cout : nat) (echo : bool) (kpol : option nat) : wparams :=
@@ -119,3 +152,12 @@ Example C05_nonvacuous_run :
   | None => False
   end.
 Proof. vm_compute. split; reflexivity. Qed.
+
+
+(* non-vacuity of the termination bound: for the run above (43 steps, all premises of C05_terminates met:
+   lengths 2, capacities 1, enqueue before write) the bound is a concrete number that the run respects *)
+Example C05_nonvacuous_bound :
+  p_order nonvac_params = true /\
+  length nonvac_labels = 43 /\
+  wmeasure nonvac_params (fun _ => 2) (fun _ => 2) (w_init [2; 1]) = 86.
+Proof. vm_compute. repeat split. Qed.
